@@ -164,11 +164,19 @@ def child_main(home, scenario, wfd, rfd, crash_after, torn):
             p = os.fspath(p)
         except TypeError:
             return None
+        if isinstance(p, bytes):
+            p = os.fsdecode(p)
         p = os.path.abspath(p)
         if p in names:
             return names[p]
         if p.startswith(evo_dir + os.sep):
-            return "other:" + os.path.basename(p)
+            base = os.path.basename(p)
+            # a temporary file of an atomic write, private to this process: `<target>.<...pid...>` (any naming scheme that
+            # carries the process id as a dot-separated component: settings.json.<pid>.tmp, settings.json.<pid>.<n>.tmp, ...)
+            for target, tag in (("settings.json", "tmpS"), ("assets_version", "tmpV")):
+                if base.startswith(target + ".") and str(pid) in base[len(target) + 1:].split("."):
+                    return tag
+            return "other:" + base
         return None
 
     def before(label):
@@ -192,7 +200,15 @@ def child_main(home, scenario, wfd, rfd, crash_after, torn):
             self._f, self._nm = f, nm
 
         def write(self, text):
-            kind = "version" if not text.lstrip().startswith("{") else "doc"
+            if isinstance(text, (bytes, bytearray)):
+                text = bytes(text).decode("utf-8", "replace")
+            if getattr(self, "_written", False):
+                # a further chunk of the same logical write (e.g. json.dump streaming into the file): one step of the
+                # model — a kill between two chunks leaves a prefix, which is the model's torn write
+                return self._f.write(text)
+            self._written = True
+            kind = {"tmpS": "doc", "S": "doc", "tmpV": "version", "V": "version"}.get(
+                self._nm, "version" if not text.lstrip().startswith("{") else "doc")
             label = f"write {self._nm} {kind}"
             before(label)
             if torn and crash_after is not None and state["n"] + 1 == crash_after:
@@ -268,7 +284,34 @@ def child_main(home, scenario, wfd, rfd, crash_after, torn):
         after(f"exists {nm} {'yes' if r else 'no'}")
         return r
 
-    builtins.open, os.replace = t_open, t_replace
+    import io
+    real_os_open, real_fdopen, real_rename = os.open, os.fdopen, os.rename
+    fd_names = {}
+
+    def t_os_open(path, flags, *a, **k):
+        nm = name_of(path) if isinstance(path, (str, bytes, os.PathLike)) else None
+        if nm is None or not (flags & (os.O_WRONLY | os.O_RDWR | os.O_CREAT)):
+            return real_os_open(path, flags, *a, **k)
+        before(f"open_w {nm}")
+        fd = real_os_open(path, flags, *a, **k)
+        fd_names[fd] = nm
+        after(f"open_w {nm}")
+        return fd
+
+    def t_fdopen(fd, *a, **k):
+        f = real_fdopen(fd, *a, **k)
+        nm = fd_names.pop(fd, None) if isinstance(fd, int) else None
+        return WFile(f, nm) if nm is not None else f
+
+    def t_open_any(file, mode="r", *a, **k):
+        if isinstance(file, int) and file in fd_names:       # open(fd, "w") on a descriptor from os.open
+            nm = fd_names.pop(file)
+            return WFile(real_open(file, mode, *a, **k), nm)
+        return t_open(file, mode, *a, **k)
+
+    builtins.open = io.open = t_open_any          # pathlib.Path.open / read_text / write_text go through io.open
+    os.replace = os.rename = t_replace            # Path.replace / Path.rename look the functions up in os at call time
+    os.open, os.fdopen = t_os_open, t_fdopen
     pathlib.Path.mkdir, pathlib.Path.exists = t_mkdir, t_exists
     out = {"exit": 0, "exc": None, "loaded_all_keys": None, "phase": "import"}
     try:
